@@ -283,6 +283,8 @@ def run(tier, seed):
     ]
     rep.trusted += ["qv engine", "z3 5.1", "library model (LAPACK contract)"]
     deductive(rep, tier)
+    from ..frame import no_module_state
+    no_module_state(rep, P, [QS + "qr_qua"])
     bounded(rep, tier, seed)
     return rep
 
